@@ -779,10 +779,14 @@ func notNil(v reflect.Value) bool {
 }
 
 func (st *Runtime) isSet(node Node) (ok bool) {
+	// what is evaluated for the answer may execute templates (exec, includeIfExists) that fail half-way and,
+	// like in a try body, skip the code that restores scope, context and yield content
+	scope, context, content := st.scope, st.context, st.content
 	defer func() {
 		if r := recover(); r != nil {
 			// something panicked while evaluating node
 			ok = false
+			st.scope, st.context, st.content = scope, context, content
 		}
 	}()
 
